@@ -4,4 +4,17 @@ go 1.25.0
 
 require github.com/pancsta/asyncmachine-go v0.0.0
 
+require (
+	github.com/alitto/pond/v2 v2.7.1 // indirect
+	github.com/cenkalti/hub v1.0.2 // indirect
+	github.com/cenkalti/rpc2 v1.0.4 // indirect
+	github.com/coder/websocket v1.8.12 // indirect
+	github.com/failsafe-go/failsafe-go v0.6.8 // indirect
+	github.com/lithammer/dedent v1.1.0 // indirect
+	github.com/orsinium-labs/enum v1.4.0 // indirect
+	github.com/soheilhy/cmux v0.1.5 // indirect
+	golang.org/x/net v0.52.0 // indirect
+	golang.org/x/text v0.36.0 // indirect
+)
+
 replace github.com/pancsta/asyncmachine-go => /repo
